@@ -67,6 +67,11 @@ func scaleSource(shape string, n int) string {
 		} else {
 			fmt.Fprintf(&sb, "var s = \"a\" * %d\nprint 1\n", n)
 		}
+	case "block-value":
+		// reading the key of a completed child block yields the block itself as a value: every operator must cope with it
+		uses := []string{"eval b == b", "print b", "eval b + 1", "eval not b", "eval b and 1", "f = b", "eval b == 1", "eval -b",
+			"eval b < b", "print b == nil", "var v = b\n eval v == v", "eval 1 == b", "eval \"s\" + b", "eval \"s\" * b", "eval b != b", "f = b\n eval f == b"}
+		sb.WriteString("def a {\n def b { x = 1 }\n " + uses[n%len(uses)] + "\n}\n")
 	case "div-int-zero":
 		sb.WriteString("print 1/0\n")
 	case "div-float-zero":
